@@ -165,11 +165,11 @@ def gen_plan(rng, opts, spec, faults, idx):
         elif kind == 'pywarn':
             passes[kf - 1] = {'a': 'pywarn', 'when': rng.choice(['before', 'after']), 'cat': rng.choice(['RuntimeWarning', 'UserWarning', 'FutureWarning', 'DeprecationWarning']), 'd': passes[kf - 1].get('d', [0.0] * n_endo)}
         elif kind == 'exception':
-            passes[kf - 1] = {'a': 'raise', 'exc': rng.choice(probes.EXCEPTION_NAMES), 'partial': rng.randint(0, n_endo)}
+            passes[kf - 1] = {'a': 'raise', 'exc': rng.choice(probes.EXCEPTION_NAMES), 'partial': rng.randint(0, n_endo), 'noargs': rng.random() < 0.25}
         elif kind == 'hook-before-exc':
-            plan['before'] = {'a': 'raise', 'exc': rng.choice(probes.EXCEPTION_NAMES)}
+            plan['before'] = {'a': 'raise', 'exc': rng.choice(probes.EXCEPTION_NAMES), 'noargs': rng.random() < 0.25}
         elif kind == 'hook-after-exc':
-            plan['after'] = {'a': 'raise', 'exc': rng.choice(probes.EXCEPTION_NAMES)}
+            plan['after'] = {'a': 'raise', 'exc': rng.choice(probes.EXCEPTION_NAMES), 'noargs': rng.random() < 0.25}
         elif kind == 'hook-warn':
             plan[rng.choice(['before', 'after'])] = {'a': 'pywarn', 'cat': rng.choice(['RuntimeWarning', 'UserWarning', 'FutureWarning'])}
         placed.append(kind)
